@@ -81,9 +81,12 @@ var vfServiceDomains = map[string][]string{
 	"4chan": {"4chan.org", "4cdn.org"},
 	"500px": {"500px.com"},
 	"9gag":  {"9gag.com"},
+	// the service list gives one of amazon's rules a restriction by query
+	// type: ||amazonaws.com^$dnstype=~CNAME
+	"amazon": {"amazonaws.com", "a2z.com"},
 }
 
-var vfServiceIDs = []string{"4chan", "500px", "9gag"}
+var vfServiceIDs = []string{"4chan", "500px", "9gag", "amazon"}
 
 func vfDrawDomain(t *rapid.T, label string) (d string) {
 	n := rapid.IntRange(1, 2).Draw(t, label+"_nlabels")
@@ -450,9 +453,13 @@ func (m *vfC01Model) services(cl *vfC01Client) (ids []string) {
 	return m.c.ServiceIDs
 }
 
-func vfServiceHit(ids []string, name string) (id string) {
+func vfServiceHit(ids []string, name string, qtype uint16) (id string) {
 	for _, id = range ids {
 		for _, d := range vfServiceDomains[id] {
+			if d == "amazonaws.com" && qtype == dns.TypeCNAME {
+				// the rule of the service says $dnstype=~CNAME
+				continue
+			}
 			if name == d || strings.HasSuffix(name, "."+d) {
 				return id
 			}
@@ -504,7 +511,7 @@ func (m *vfC01Model) reference(q *vfC01Query) (v vfVerdict) {
 		}
 	}
 
-	if id := vfServiceHit(m.services(cl), name); id != "" {
+	if id := vfServiceHit(m.services(cl), name, q.Qtype); id != "" {
 		return vfVerdict{Blocked: true, Why: "service"}
 	}
 	if !rulesApply {
@@ -586,7 +593,7 @@ func (m *vfC01Model) constructive(q *vfC01Query) (v vfVerdict, ok bool) {
 			return vfVerdict{Blocked: true, Why: "hosts", HostIPs: hostIPs}, true
 		}
 	}
-	if id := vfServiceHit(m.services(cl), name); id != "" {
+	if id := vfServiceHit(m.services(cl), name, q.Qtype); id != "" {
 		return vfVerdict{Blocked: true, Why: "service"}, true
 	}
 	if !rulesApply {
